@@ -117,6 +117,33 @@ fn parse_repl(args: &[String]) -> Value {
     }
 }
 
+/// what the parser can read a token as (attributes for spec/Wire.tla); integers beyond TLC's range are clamped
+fn tok_json(t: &str) -> Value {
+    let clamp = |n: u64| -> i64 { if n > 2_000_000_000 { 2_000_000_000 } else { n as i64 } };
+    let num = t.parse::<u64>().map(clamp).unwrap_or(-1);
+    let (lo, hi) = {
+        let mut it = t.split('-');
+        match (it.next().and_then(|x| x.parse::<usize>().ok()), it.next().and_then(|x| x.parse::<usize>().ok())) {
+            (Some(a), Some(b)) => (clamp(a as u64), clamp(b as u64)),
+            _ => (-1, -1),
+        }
+    };
+    let has = |f: &str| t.split(',').any(|x| x == f);
+    json!({"s": t, "up": t.to_uppercase(), "num": num, "lo": lo, "hi": hi, "force": has("FORCE"), "compress": has("COMPRESS"),
+           "nameok": ClusterName::try_from(t).is_ok()})
+}
+
+fn toks_json(args: &[String]) -> (Value, Value) {
+    let toks: Vec<Value> = args.iter().map(|a| tok_json(a)).collect();
+    let pairok: Vec<bool> = (0..args.len())
+        .map(|i| match args.get(i + 1) {
+            Some(v) => ClusterConfig::default().set_field(&args[i], v).is_ok(),
+            None => false,
+        })
+        .collect();
+    (Value::Array(toks), json!(pairok))
+}
+
 fn token_kind(t: &str) -> &'static str {
     let u = t.to_uppercase();
     if u == "PEER" || u == "CONFIG" || u == "MIGRATING" || u == "IMPORTING" {
@@ -148,7 +175,8 @@ pub fn run<W: Write>(out: &mut W, count: u64, seed: u64) {
         );
         let orig = meta_json(&m);
         let args = m.to_args();
-        writeln!(out, "{}", json!({"kind": "plain", "orig": orig, "args": args, "parsed": parse_args(&args)})).ok();
+        let (toks, pairok) = toks_json(&args);
+        writeln!(out, "{}", json!({"kind": "plain", "orig": orig, "args": args, "toks": toks, "pairok": pairok, "parsed": parse_args(&args)})).ok();
         // compressed path
         let mc = ProxyClusterMeta::new(m.get_epoch(), ClusterMapFlags { force: flags.force, compress: true }, name.clone(), m.get_local().clone(), m.get_peer().clone(), m.get_config().clone());
         match mc.to_compressed_args() {
@@ -187,9 +215,11 @@ pub fn run<W: Write>(out: &mut W, count: u64, seed: u64) {
             for p in 0..args.len() {
                 let mut a = args.clone();
                 let tok = a.remove(p);
-                writeln!(out, "{}", json!({"kind": "corrupt", "how": "delete", "idx": p, "token": tok, "tk": token_kind(&tok), "orig": orig, "parsed": parse_args(&a)})).ok();
+                let (toks, pairok) = toks_json(&a);
+                writeln!(out, "{}", json!({"kind": "corrupt", "how": "delete", "idx": p, "token": tok, "tk": token_kind(&tok), "orig": orig, "toks": toks, "pairok": pairok, "parsed": parse_args(&a)})).ok();
                 let t: Vec<String> = args[..p].to_vec();
-                writeln!(out, "{}", json!({"kind": "corrupt", "how": "truncate", "idx": p, "token": args[p], "tk": token_kind(&args[p]), "orig": orig, "parsed": parse_args(&t)})).ok();
+                let (toks, pairok) = toks_json(&t);
+                writeln!(out, "{}", json!({"kind": "corrupt", "how": "truncate", "idx": p, "token": args[p], "tk": token_kind(&args[p]), "orig": orig, "toks": toks, "pairok": pairok, "parsed": parse_args(&t)})).ok();
             }
             for _ in 0..6 {
                 if args.is_empty() {
@@ -203,7 +233,8 @@ pub fn run<W: Write>(out: &mut W, count: u64, seed: u64) {
                 // only replacements by a token of another kind: same-kind replacements are legitimately
                 // different messages that no parser could tell apart
                 if a[p] != old && token_kind(&a[p]) != token_kind(&old) {
-                    writeln!(out, "{}", json!({"kind": "corrupt", "how": "replace", "idx": p, "token": old, "tk": token_kind(&old), "orig": orig, "parsed": parse_args(&a)})).ok();
+                    let (toks, pairok) = toks_json(&a);
+                    writeln!(out, "{}", json!({"kind": "corrupt", "how": "replace", "idx": p, "token": old, "tk": token_kind(&old), "orig": orig, "toks": toks, "pairok": pairok, "parsed": parse_args(&a)})).ok();
                 }
             }
         }
